@@ -2,7 +2,7 @@
 
    tools/py2v.py (part 6) regenerates on every run the BODY of convert() of
      ApprovalToSimpleVotes (plain and split), RankedToFirstPreference, RankedToApprovalVotes, ScoreToApprovalVotesThreshold,
-     InvertedSimpleVotes, InvertedApprovalVotes, VoteTotals  and of  votelib.util.add_dict_to_dict
+     InvertedSimpleVotes, InvertedApprovalVotes, RankedToPresenceCounts, VoteTotals  and of  votelib.util.add_dict_to_dict
    into Gen/Convert.v: the loops over the ballots (and the loops nested in them) as fold_left, the defaultdict(int) / dict / set
    operations as the primitives of Prelude/PyConv.v.  This file proves that these generated functions ARE the models the C13
    theorems (Props/C13.v: per-ballot exactness, additivity, conservation) are about - the accumulating fold [dconv img] over the
@@ -15,6 +15,8 @@
      GenTie_Convert_add_dict          deq (add_dict_to_dict(d1, d2): d1 afterwards)          (add_dict d1 d2)
      GenTie_Convert_vote_totals       deq (VoteTotals().convert votes)                       (vote_totals votes)
      GenTie_Convert_inverted_simple   InvertedSimpleVotes.convert votes = inv_simple votes   (the keys of a dictionary are distinct)
+     GenTie_Convert_presence          dsim (RankedToPresenceCounts().convert votes) (dconv img_presence votes), for every function standing for
+                                      util.all_rankings (not translated) that lists each (candidate, count) occurrence of the profile once
      GenTie_Convert_inverted_approval deq (InvertedApprovalVotes.convert votes) (dconv (img_inverted_approval (cands_approval votes)) votes)
                                       (distinct keys, each frozenset key in its canonical form: then the complements are distinct too)
 
@@ -30,9 +32,9 @@
    pointwise; [inner_char]: a loop adding to output[key x] for the members x of the ballot; [flatten_char]: a loop collecting the
    candidates of a ranking), the loop bodies are only used through their pointwise behaviour (case analysis on the ballot), so that
    equivalent spellings of the source (renamed locals, swapped branches, the test written the other way round) leave the proofs intact. *)
-From Coq Require Import ZArith QArith List Bool Lia Arith.
+From Coq Require Import ZArith QArith List Bool Lia Arith Permutation.
 From VL Require Import Prelude.Sx Prelude.PyDict Prelude.GDict Prelude.PyNum Prelude.PyList Prelude.PyConv Model.GetNBest
-     Model.Convert Model.Convert2 Proofs.Convert_proofs Proofs.Convert2_proofs Proofs.JR_proofs Proofs.ChainCands_proofs Proofs.GenConvert_proofs.
+     Model.Convert Model.Convert2 Proofs.Convert_proofs Proofs.Convert2_proofs Proofs.JR_proofs Proofs.ChainCands_proofs Proofs.GenConvert_proofs Proofs.GenConvert2_proofs.
 From VL Require Gen.Convert.
 Import ListNotations.
 Open Scope Q_scope.
@@ -221,6 +223,33 @@ Proof.
     assert (E : forall l l' : list sx, l = l' -> NoDup l' -> NoDup l) by (intros l l' ->; auto). refine (E _ _ _ ND). apply map_ext. intros [b w]. cbn [fst]. rewrite map_id. reflexivity.
 Qed.
 
+(* ---- RankedToPresenceCounts.convert: one addition per item of util.all_rankings(votes), which is NOT translated (a generator with a
+   while loop): a function parameter.  What is used of it: it lists every (candidate, count) occurrence of the profile once - in
+   whatever order (the code goes rank by rank, the model ballot by ballot). *)
+Definition presence_listing (votes : list (ranked * Q)) : list (C * Q) :=
+  flat_map (fun bw => map (fun c => (c, snd bw)) (flatten (fst bw))) votes.
+
+Lemma fold_left_ext' {X Y} (f g : Y -> X -> Y) l : (forall a x, f a x = g a x) -> forall a, fold_left f l a = fold_left g l a.
+Proof. intros H. induction l as [|x l IH]; intros a; cbn [fold_left]; [reflexivity|]. rewrite H. apply IH. Qed.
+
+Lemma tie_presence (f : list (ranked * Q) -> list (C * (Z * Q))) votes :
+  Permutation (map (fun t => (fst t, snd (snd t))) (f votes)) (presence_listing votes) ->
+  dsim (Gen.Convert.RankedToPresenceCounts_convert f votes) (dconv img_presence votes).
+Proof.
+  intros HP. set (single := fun c : C => [(kc c, 1)]). set (g := fun t : C * (Z * Q) => (fst t, snd (snd t))) in *.
+  assert (D : deq (Gen.Convert.RankedToPresenceCounts_convert f votes) (dconv single (map g (f votes)))).
+  { unfold Gen.Convert.RankedToPresenceCounts_convert. cbv zeta. rewrite dconv_unfold, fold_left_map'.
+    apply deq_fold; [|constructor]. intros a b [c [rk w]] Hab. unfold g, single. cbn [fst snd fold_left]. unfold madd. cbn [fst snd].
+    apply deq_dd_add; [exact Hab|]. symmetry. apply Qmult_1_l. }
+  apply (dsim_trans _ (dconv single (map g (f votes)))).
+  { apply deq_dsim; [exact D|]. rewrite (deq_keys _ _ D). apply nodup_conv. }
+  apply (dsim_trans _ (dconv single (presence_listing votes))); [apply dconv_ballot_perm, HP|].
+  assert (E : dconv single (presence_listing votes) = dconv img_presence votes).
+  { rewrite !dconv_unfold. unfold presence_listing. rewrite fold_left_flat_map. apply fold_left_ext'. intros a [r w]. cbn [fst snd].
+    unfold img_presence. rewrite !fold_left_map'. reflexivity. }
+  rewrite E. apply dsim_refl, nodup_conv.
+Qed.
+
 (* ================= the tie theorems ================= *)
 Theorem GenTie_Convert_approval_simple : forall (split : bool) (votes : list (list C * Q)),
   deq (Gen.Convert.ApprovalToSimpleVotes_convert split votes) (dconv (img_approval_simple split) votes).
@@ -262,6 +291,23 @@ Proof.
   cbv zeta. split; [|split; [|reflexivity]].
   - repeat constructor; cbn [In]; intros H; repeat destruct H as [H|H]; try discriminate H; exact H.
   - repeat constructor.
+Qed.
+
+Theorem GenTie_Convert_presence : forall (f : list (ranked * Q) -> list (C * (Z * Q))) (votes : list (ranked * Q)),
+  Permutation (map (fun t => (fst t, snd (snd t))) (f votes)) (presence_listing votes) ->
+  dsim (Gen.Convert.RankedToPresenceCounts_convert f votes) (dconv img_presence votes).
+Proof. exact tie_presence. Qed.
+
+(* the hypothesis holds of the rank-by-rank listing util.all_rankings produces (here written out for one profile) *)
+Example gen_convert_presence_hyp :
+  let votes := [([IS [1; 2]%positive; IP 3%positive], 2 # 1); ([IP 3%positive; IP 1%positive], 1 # 1)] in
+  let f := fun _ : list (ranked * Q) => [(1, (0%Z, 2 # 1)); (2, (0%Z, 2 # 1)); (3, (0%Z, 1 # 1)); (3, (1%Z, 2 # 1)); (1, (1%Z, 1 # 1))]%positive in
+  Permutation (map (fun t => (fst t, snd (snd t))) (f votes)) (presence_listing votes) /\
+  Gen.Convert.RankedToPresenceCounts_convert f votes = [(kc 1%positive, 0 + (2 # 1) + (1 # 1)); (kc 2%positive, 0 + (2 # 1)); (kc 3%positive, 0 + (1 # 1) + (2 # 1))].
+Proof.
+  cbv zeta. split; [|reflexivity]. cbn.
+  apply perm_skip, perm_skip. apply perm_trans with ((3%positive, 2 # 1) :: (3%positive, 1 # 1) :: [(1%positive, 1 # 1)]); [apply perm_swap|].
+  apply Permutation_refl.
 Qed.
 
 (* what [run_kind] of Model/Convert2.v answers for a decodable profile is the generated function (the four kinds translated here) *)
@@ -306,3 +352,4 @@ Print Assumptions GenTie_Convert_vote_totals.
 Print Assumptions GenTie_Convert_inverted_simple.
 Print Assumptions GenTie_Convert_run_kind.
 Print Assumptions GenTie_Convert_inverted_approval.
+Print Assumptions GenTie_Convert_presence.
